@@ -349,6 +349,10 @@ Definition C04_revision_adoption (c : ccfg) (parent : json) (evs : list ev) : op
         then
           if Nat.ltb 1 (controller_count (e_post e)) then Some "two-controller-references" else
           if is_deleting parent then Some "deleting-parent-adopted-revision" else
+          if match revision_selector c parent with
+             | Some sel => negb (sel_matches sel (get_labels (e_pre e)))
+             | None => true end
+          then Some "revision-adopted-without-matching-selector" else
           if negb (existsb (fun e' => match is_api e', e_ans e' with
                                       | Some q', AObj fresh => targets_parent c parent q' && verb_eqb (q_verb q') VGet &&
                                                                String.eqb (get_uid fresh) puid && negb (is_deleting fresh)
@@ -378,11 +382,43 @@ Definition C04_release_complete (c : ccfg) (k : cache) (parent : json) (evs : li
   | _, _ => None
   end.
 
+(* ... and release: an owned revision in the cache that no longer matches the parent's selector (all of it:
+   labels and expressions, plus the parent-type labels) has had its release attempted before the hook is
+   called, and a revision that does match is not released *)
+Definition C04_revision_release (c : ccfg) (k : cache) (parent : json) (evs : list ev) : option string :=
+  match revision_selector c parent with
+  | None => None
+  | Some sel =>
+      let puid := get_uid parent in
+      orelse
+        (first_some (fun e =>
+           match is_api e with
+           | Some q =>
+               if String.eqb (q_res q) rev_res && verb_eqb (q_verb q) VUpdate && accepted e &&
+                  controlled_by (e_pre e) puid && negb (controlled_by (e_post e) puid) &&
+                  sel_matches sel (get_labels (e_pre e)) && negb (is_deleting parent)
+               then Some "matching-revision-released" else None
+           | None => None end) evs)
+        (match hook_events evs with
+         | _ :: _ =>
+             if is_deleting parent then None else
+             first_some (fun o =>
+               if (String.eqb (get_ns parent) "" || String.eqb (get_ns o) (get_ns parent)) &&
+                  controlled_by o puid && negb (sel_matches sel (get_labels o)) then
+                 if existsb (fun e => match is_api e with
+                                      | Some q => String.eqb (q_res q) rev_res && String.eqb (q_name q) (get_name o)
+                                      | None => false end) (before_hook evs)
+                 then None else Some "owned-revision-that-stopped-matching-not-released"
+               else None) (cached k rev_res)
+         | [] => None end)
+  end.
+
 Definition C04_check := check_with (fun c r =>
   orelse (with_parent (fun p => orelse (C04_round c (r_cache r) p (r_events r))
                                   (orelse (C04_revision_adoption c p (r_events r))
+                                   (orelse (C04_revision_release c (r_cache r) p (r_events r))
                                      (orelse (C04_incarnation c (r_cache r) p (r_events r))
-                                             (C04_release_complete c (r_cache r) p (r_events r))))) r)
+                                             (C04_release_complete c (r_cache r) p (r_events r)))))) r)
          (C04_label_invariant c (r_events r))) proj_claims false.
 
 (* the desired children of the round as child management receives them
